@@ -14,7 +14,7 @@ import (
 // driver renders the model's `GoFile` view (lean/Varlink/Gen/View.lean) in the same format
 // (lean/Driver/CmdsGen.lean `renderFile`) and compares the two byte for byte.
 //
-//   package <p> / import <path> / type <n> <ty> / iface <n> + " m <n> (<fields>) (<fields>)"
+//   package <p> / import <path> / type <n> <ty> / alias <n> <ty> (type n = ty) / iface <n> + " m <n> (<fields>) (<fields>)"
 //   func <recv|-> <n> (<fields>) (<fields>) uses=<pkgs>  followed by the body records, one space per depth:
 //     var <n> <ty> | def <a,b> | set <e> = <e> | args <a.b.c> (<e>;…) | use <x.f> | str <x.f> x<hex>
 //     | ret x<hex> | closure (<fields>) (<fields>) | case x<hex> | case -
@@ -62,7 +62,11 @@ func goSummary(src []byte) []byte {
 						s.line(0, " m "+m.Names[0].Name+" ("+s.fields(ft.Params)+") ("+s.fields(ft.Results)+")")
 					}
 				} else {
-					s.line(0, "type "+ts.Name.Name+" "+s.ty(ts.Type))
+					kw := "type "
+					if ts.Assign.IsValid() {
+						kw = "alias " // type N = T
+					}
+					s.line(0, kw+ts.Name.Name+" "+s.ty(ts.Type))
 				}
 			}
 		case *ast.FuncDecl:
